@@ -118,6 +118,7 @@ class FSpec:
                  effect=None, props=(), may_raise_unspecified=False, axioms=None, trace=None):
         self.axioms = axioms or (lambda st, a: [])
         self.trace = trace            # trace(st0, st1, a, res) -> events appended by one call
+        self.may_raise = {}           # exc -> condition under which raising is permitted but not required
         self.qual = qual
         self.pre = pre or (lambda st, a: [])
         self.post = post or (lambda st0, st1, a, res: [])
@@ -211,7 +212,7 @@ class FSpec:
             st.assume(f)
         out = []
         # raising exits permitted by the contract
-        for exc, cond in self.raises.items():
+        for exc, cond in list(self.raises.items()) + list(self.may_raise.items()):
             c = cond(st0.peek(), a)
             sr = st.copy(); sr.assume(c)
             if feasible(sr.pc):
@@ -273,8 +274,9 @@ class FSpec:
             n_paths += 1
             if kind == "raise":
                 exc = val[0]
-                if exc in self.raises:
-                    s1.oblige(f"raises:{exc}-only-when-allowed", self.raises[exc](st0.peek(), a), "raises")
+                if exc in self.raises or exc in self.may_raise:
+                    conds = [d[exc](st0.peek(), a) for d in (self.raises, self.may_raise) if exc in d]
+                    s1.oblige(f"raises:{exc}-only-when-allowed", z3.Or(*conds), "raises")
                 else:
                     s1.oblige(f"no-raise:{exc}@{val[1]}", z3.BoolVal(False), "no-raise")
                 continue
